@@ -628,3 +628,141 @@ Proof.
     eapply np_trans_l; [exact Ea | exact Eb | exact Ec |].
     destruct (f_item x); apply np_same; st_simpl; unfold destroy; st_simpl; assumption.
 Qed.
+
+(* the pushing steps, structurally *)
+Lemma push_try_send_core v s :
+  let r := try_send_core v s in
+  sc (fst r) = sc s /\ recvd (fst r) = recvd s /\
+  match snd r with TsOk => q (fst r) = q s ++ [v] | _ => q (fst r) = q s end.
+Proof.
+  cbv zeta. unfold try_send_core. destruct (rc s =? 0); [cbn; auto|]. destruct (is_full s); [cbn; auto|].
+  cbn [fst snd]. destruct (same_wake_one_recv s) as (A & B & C). unfold push. st_simpl. rewrite A, B, C. auto.
+Qed.
+
+Definition send_push (s : st) (h : N) (s' : st) : Prop :=
+  sc s' = sc s /\ recvd s' = recvd s /\
+  (q s' = q s \/ exists x, getH h s = Some x /\ h_live x = true /\ h_tx x = true /\ h_closed x = false
+                           /\ q s' = q s ++ [next s]).
+
+Lemma send_push_try s h : send_push s h (fst (step s (TrySend h))).
+Proof.
+  unfold step. set (s1 := with_bad false (with_dk [] (with_wk [] s))).
+  change (getH h s1) with (getH h s). unfold send_push.
+  destruct (getH h s) as [x|] eqn:Hg; [|cbn; auto].
+  destruct (h_live x) eqn:Hl; cbn [negb]; [|cbn; auto].
+  destruct (h_tx x) eqn:Htx; cbn [negb]; [|cbn; auto].
+  unfold fresh. cbn [fst snd]. destruct (h_closed x) eqn:Hc; [cbn; auto|].
+  pose proof (push_try_send_core (next s1) (with_next (next s1 + 1) s1)) as P. cbv zeta in P.
+  destruct (try_send_core (next s1) (with_next (next s1 + 1) s1)) as [s2 r]. cbn [fst snd] in P.
+  destruct P as (A & B & C). destruct r; cbn [ret fst]; unfold give_back; st_simpl; rewrite ?A, ?B, ?C.
+  - split; [reflexivity|]. split; [reflexivity|]. right. exists x. repeat split; auto.
+  - cbn. auto.
+  - cbn. auto.
+Qed.
+
+Lemma send_push_block s h : send_push s h (fst (step s (Send h))).
+Proof.
+  unfold step. set (s1 := with_bad false (with_dk [] (with_wk [] s))).
+  change (getH h s1) with (getH h s). unfold send_push.
+  destruct (getH h s) as [x|] eqn:Hg; [|cbn; auto].
+  destruct (h_live x) eqn:Hl; cbn [negb]; [|cbn; auto].
+  destruct (negb (h_tx x) || h_async x) eqn:Ek; [cbn; auto|].
+  assert (Htx : h_tx x = true) by (destruct (h_tx x); [reflexivity | discriminate]).
+  destruct (negb (rc s1 =? 0) && is_full s1); [cbn; auto|].
+  unfold fresh. cbn [fst snd]. destruct (h_closed x) eqn:Hc; [cbn; auto|].
+  pose proof (push_try_send_core (next s1) (with_next (next s1 + 1) s1)) as P. cbv zeta in P.
+  destruct (try_send_core (next s1) (with_next (next s1 + 1) s1)) as [s2 r]. cbn [fst snd] in P.
+  destruct P as (A & B & C). destruct r; cbn [ret fst]; unfold destroy; st_simpl; rewrite ?A, ?B, ?C.
+  - split; [reflexivity|]. split; [reflexivity|]. right. exists x. repeat split; auto.
+  - cbn. auto.
+  - cbn. auto.
+Qed.
+
+Definition clone_eff (s : st) (h : N) (s' : st) : Prop :=
+  q s' = q s /\ recvd s' = recvd s /\
+  (sc s' = sc s \/ exists x, getH h s = Some x /\ h_live x = true /\ h_tx x = true
+                             /\ (h_closed x = true -> fx33 (fx s) = false /\ t33 (tn s') = true)).
+
+Lemma clone_structural s h h2 : clone_eff s h (fst (step s (Clone h h2))).
+Proof.
+  unfold step. set (s1 := with_bad false (with_dk [] (with_wk [] s))).
+  change (getH h s1) with (getH h s). change (getH h2 s1) with (getH h2 s). change (fx s1) with (fx s).
+  unfold clone_eff.
+  destruct (getH h s) as [x|] eqn:Hg; [|cbn; auto].
+  destruct (h_live x) eqn:Hl; cbn [negb]; [|cbn; auto].
+  destruct (getH h2 s); [cbn; auto|].
+  destruct (h_closed x && fx33 (fx s)) eqn:Ec; [cbn; auto|].
+  cbn [ret fst].
+  destruct (same_taint set_t33 (h_closed x) s1) as (A & B & C).
+  destruct (h_tx x) eqn:Htx; st_simpl; rewrite ?A, ?B, ?C.
+  - split; [reflexivity|]. split; [reflexivity|]. right. exists x. repeat split; auto.
+    + match goal with E : h_closed x = true |- _ => rewrite E in Ec end. exact Ec.
+    + match goal with E : h_closed x = true |- _ => rewrite E end. reflexivity.
+  - cbn. auto.
+Qed.
+
+Definition poll_eff (s : st) (f : N) (s' : st) : Prop :=
+  sc s' <= sc s /\
+  ((q s' = q s /\ recvd s' = recvd s) \/ (exists v, q s = v :: q s' /\ recvd s' = recvd s ++ [v]) \/
+   (exists x v, getF f s = Some x /\ f_recv x = false /\ f_live x = true /\ recvd s' = recvd s /\ q s' = q s ++ [v]
+                /\ (handle_closed (f_h x) s = true -> fx03f (fx s) = false /\ t03f (tn s') = true))).
+
+Lemma push_send_try f w x s :
+  let r := send_try f w x s in
+  sc (fst r) = sc s /\ recvd (fst r) = recvd s /\ (q (fst r) = q s \/ exists v, q (fst r) = q s ++ [v]).
+Proof.
+  cbv zeta. unfold send_try. destruct (f_item x) as [v|]; [|cbn; auto].
+  pose proof (push_try_send_core v (setF f (set_item None x) s)) as P. cbv zeta in P.
+  destruct (try_send_core v (setF f (set_item None x) s)) as [s1 r]. cbn [fst snd] in P. destruct P as (A & B & C).
+  destruct r; cbn [fst]; st_simpl; rewrite ?A, ?B, ?C; st_simpl; eauto.
+Qed.
+
+Lemma push_poll_send f w x s :
+  let r := poll_send f w x s in
+  sc (fst r) = sc s /\ recvd (fst r) = recvd s /\ (q (fst r) = q s \/ exists v, q (fst r) = q s ++ [v]).
+Proof.
+  cbv zeta. unfold poll_send. destruct (f_reg x); [|apply push_send_try].
+  destruct (f_state x).
+  - destruct (queued f (asq s)); cbn; auto.
+  - cbn. auto.
+  - pose proof (push_send_try f w (set_reg false x) (with_asq (remove_first f (asq s)) s)) as P. cbv zeta in P. exact P.
+  - destruct (queued f (asq s)); cbn; auto.
+Qed.
+
+Lemma tn_taint_t03f b s : t03f (tn (taint set_t03f b s)) = b || t03f (tn s).
+Proof. unfold taint. destruct b; reflexivity. Qed.
+
+Lemma poll_structural s f w : poll_eff s f (fst (step s (Poll f w))).
+Proof.
+  unfold step. set (s1 := with_bad false (with_dk [] (with_wk [] s))).
+  change (getF f s1) with (getF f s). change (fx s1) with (fx s). unfold poll_eff.
+  assert (Hrefl : sc s1 <= sc s) by (cbn; lia).
+  destruct (getF f s) as [x|] eqn:Hg; [|cbn [ret fst]; split; [exact Hrefl | left; split; reflexivity]].
+  destruct (f_live x) eqn:Hl; cbn [negb]; [|cbn [ret fst]; split; [exact Hrefl | left; split; reflexivity]].
+  destruct (f_done x); [cbn [ret fst]; split; [exact Hrefl | left; split; reflexivity]|].
+  change (handle_closed (f_h x) s1) with (handle_closed (f_h x) s).
+  destruct (handle_closed (f_h x) s && fx03f (fx s)) eqn:Ec.
+  - cbn [ret fst]. destruct (same_cancel_reg f x s1) as (A & B & C).
+    split; [st_simpl; rewrite A; exact Hrefl|]. left. st_simpl. rewrite B, C. split; reflexivity.
+  - set (s2 := taint set_t03f (handle_closed (f_h x) s) s1).
+    destruct (same_taint set_t03f (handle_closed (f_h x) s) s1) as (A & B & C). fold s2 in A, B, C.
+    destruct (f_recv x) eqn:Hrv.
+    + pose proof (np_poll_recv f w x s2) as P.
+      destruct (poll_recv f w x s2) as [s3 r]. cbn [fst ret] in *. destruct P as (P1 & P2 & P3).
+      split; [rewrite A in P1; lia|].
+      destruct P2 as [E|[v [E1 E2]]].
+      * left. split; [rewrite E; exact B | rewrite (P3 E); exact C].
+      * right. left. exists v. rewrite B in E1. rewrite C in E2. auto.
+    + pose proof (push_poll_send f w x s2) as P. cbv zeta in P.
+      pose proof (cfg_poll_send f w x s2) as (_ & _ & T).
+      destruct (poll_send f w x s2) as [s3 r]. cbn [fst ret] in *. destruct P as (P1 & P2 & P3).
+      split; [rewrite P1, A; exact Hrefl|].
+      destruct P3 as [E|[v E]].
+      * left. split; [rewrite E; exact B | rewrite P2; exact C].
+      * right. right. exists x, v. rewrite B in E. rewrite C in P2. repeat split; auto.
+        -- match goal with Eh : handle_closed (f_h x) s = true |- _ => rewrite Eh in Ec end. exact Ec.
+        -- destruct T as (_ & T & _).
+           destruct (t03f (tn s3)) eqn:E3; [reflexivity|]. specialize (T eq_refl).
+           subst s2. rewrite tn_taint_t03f in T.
+           match goal with Eh : handle_closed (f_h x) s = true |- _ => rewrite Eh in T end. discriminate.
+Qed.
